@@ -124,10 +124,12 @@ pub trait Record {
         };
 
         match self.alignment_span() {
-            Some(Ok(span)) => {
-                let end = usize::from(start) + span - 1;
-                Position::new(end).map(Ok)
-            }
+            Some(Ok(span)) => Some(start.checked_add(span - 1).ok_or_else(|| {
+                io::Error::new(
+                    io::ErrorKind::InvalidData,
+                    "calculation of the end position overflowed",
+                )
+            })),
             Some(Err(e)) => Some(Err(e)),
             None => Some(Ok(start)),
         }
